@@ -26,6 +26,8 @@ class CompilerModel:
         self._ts = None
         self._rules = None
         self._alloc = {}
+        self._renderer = None
+        self.renderer_note = None
 
     @property
     def flow(self):
@@ -39,6 +41,19 @@ class CompilerModel:
         if self._ts is None:
             self._ts = TemplateSet(self.repo)
         return self._ts
+
+    @property
+    def renderer(self):
+        """what turns a sample code tree into the text the emitter describes for it: the extracted templates, or - when
+        the emitter does not decompose into per-class templates - its source evaluated on each tree (sa/emit_eval.py)"""
+        if self._renderer is None:
+            try:
+                self._renderer = self.templates
+            except AnalysisError as e:
+                from .emit_eval import ConcreteEmitter
+                self._renderer = ConcreteEmitter(self.repo, why=str(e))
+                self.renderer_note = 'the emitter is not decomposable into templates (%s): its source is evaluated on every sample tree instead' % e
+        return self._renderer
 
     # -- body classes ---------------------------------------------------------------------
     def body_classes(self):
@@ -705,6 +720,7 @@ def interpret_function(fdef, env_beh):
     stack = []
     names = {}
     steps = [0]
+    env_beh.pop('#activations', None)
 
     def ev(e):
         if isinstance(e, ast.Constant):
@@ -717,6 +733,16 @@ def interpret_function(fdef, env_beh):
             raise AnalysisError('emitted code reads the unassigned name %s' % e.id)
         if isinstance(e, ast.UnaryOp) and isinstance(e.op, ast.Not):
             return not ev(e.operand)
+        if isinstance(e, ast.BoolOp):
+            v = None
+            for x in e.values:
+                v = ev(x)
+                if bool(v) == isinstance(e.op, ast.Or):
+                    return v
+            return v
+        if isinstance(e, ast.Compare) and len(e.ops) == 1 and isinstance(e.ops[0], (ast.Eq, ast.NotEq, ast.Is, ast.IsNot)):
+            a, b = ev(e.left), ev(e.comparators[0])
+            return (a == b) if isinstance(e.ops[0], (ast.Eq, ast.Is)) else (a != b)
         raise AnalysisError('emitted code uses an expression form outside the supported subset: %s' % norm(e))
 
     def run(stmts):
@@ -724,12 +750,11 @@ def interpret_function(fdef, env_beh):
             steps[0] += 1
             if steps[0] > 20000:
                 raise sem.StepLimit()
-            if isinstance(s, ast.Assign) and len(s.targets) == 1 and isinstance(s.targets[0], ast.Name):
+            if isinstance(s, ast.Assign) and all(isinstance(t, ast.Name) for t in s.targets):
                 v = s.value
-                if isinstance(v, ast.Call):
-                    names[s.targets[0].id] = ('obj', norm(v))
-                else:
-                    names[s.targets[0].id] = ev(v)
+                val = ('obj', norm(v)) if isinstance(v, ast.Call) else ev(v)
+                for t in s.targets:
+                    names[t.id] = val
             elif isinstance(s, ast.For):
                 it = s.iter
                 if isinstance(it, (ast.List, ast.Tuple)):
@@ -738,7 +763,7 @@ def interpret_function(fdef, env_beh):
                     goal = it.args[0].value
                     if goal not in env_beh:
                         raise AnalysisError('emitted loop over an unknown goal %r' % goal)
-                    seq = [('goal', goal, i) for i in range(env_beh[goal][0])]
+                    seq = [('goal', goal, i) for i in range(sem.nsol(env_beh, goal))]
                 else:
                     raise AnalysisError('emitted loop iterates %s' % norm(it))
                 broke = False
@@ -820,6 +845,29 @@ def mini_trees(depth, width, labels=(), goals=('p', 'q', 'r'), top=True):
     return codes(depth, tuple(labels), 0)
 
 
+def uniquify(code):
+    """the same code with a label of its own for every block (the compiler numbers its labels per program)"""
+    counter = [0]
+
+    def rec(c, ren):
+        out = []
+        for s in c:
+            if s[0] == 'Block':
+                counter[0] += 1
+                new = 'cutIf%d' % counter[0]
+                r2 = dict(ren)
+                r2[s[1]] = new
+                out.append(('Block', new, rec(s[2], r2)))
+            elif s[0] == 'BreakBlock':
+                out.append(('BreakBlock', ren.get(s[1], s[1])))
+            elif s[0] == 'Foreach':
+                out.append(('Foreach', s[1], rec(s[2], ren)))
+            else:
+                out.append(s)
+        return out
+    return rec(code, {})
+
+
 def to_nodes(code):
     """mini-language code -> sample code tree for the emitter templates"""
     out = []
@@ -843,6 +891,17 @@ def to_nodes(code):
     return out
 
 
+def _block_in_loop(code, inside=False):
+    for s in code:
+        if s[0] == 'Block':
+            if inside or _block_in_loop(s[2], inside):
+                return True
+        elif s[0] == 'Foreach':
+            if _block_in_loop(s[2], True):
+                return True
+    return False
+
+
 def goals_in(code, acc=None):
     acc = acc if acc is not None else []
     for s in code:
@@ -860,7 +919,9 @@ def rule_templates_implement_minilanguage(cm, rep, rid, depth=3, width=2, scope=
                   '"next clause" appended) the extracted emitter templates are instantiated, the text is parsed with ast, '
                   'and a small interpreter of the statement forms that occur is compared with the mini-language semantics '
                   'for every behaviour (0..%d solutions) of the goals' % (depth, width, scope))
-    ts = cm.templates
+    ts = cm.renderer
+    if cm.renderer_note:
+        rep.note(rid, cm.renderer_note)
     n_trees = n_runs = 0
     where = cm.comp.module.relpath
     seen_problem = set()
@@ -873,7 +934,8 @@ def rule_templates_implement_minilanguage(cm, rep, rid, depth=3, width=2, scope=
         # loops), and depth 3 with one wide level
         seen = set()
         for fam in (mini_trees(2, 2), mini_trees(5, 1), mini_trees(3, {3: 2, 2: 1, 1: 1}), mini_trees(3, {3: 1, 2: 2, 1: 1}),
-                    mini_trees(5, {5: 1, 4: 'y', 3: 'y', 2: 1, 1: 1}), mini_trees(4, {4: 'y', 3: 'y', 2: 'y', 1: 1})):
+                    mini_trees(5, {5: 1, 4: 'y', 3: 'y', 2: 1, 1: 1}), mini_trees(4, {4: 'y', 3: 'y', 2: 'y', 1: 1}),
+                    mini_trees(5, {5: 1, 4: 'y', 3: 1, 2: 2, 1: 1})):
             for c in fam:
                 k = repr(c)
                 if k not in seen:
@@ -881,7 +943,7 @@ def rule_templates_implement_minilanguage(cm, rep, rid, depth=3, width=2, scope=
                     yield c
     for code in family():
         n_trees += 1
-        full = list(code) + [('Yield',)]          # the "next clause" of the same predicate
+        full = uniquify(list(code) + [('Yield',)])          # the "next clause" of the same predicate
         fn = Node('YPCodeFunction', name='t', args=[], body=to_nodes(full))
         try:
             text = ts.render_node(fn)
@@ -904,7 +966,12 @@ def rule_templates_implement_minilanguage(cm, rep, rid, depth=3, width=2, scope=
             rep.violation(rid, 'shape:defs', 'one function template yields %d definitions' % len(fdefs), where)
             continue
         gs = goals_in(full)
-        for combo in itertools.product(range(scope + 1), repeat=len(gs)):
+        dom = list(range(scope + 1))
+        if _block_in_loop(full):
+            # a block that is entered once per solution of an enclosing goal: the goals inside it need not behave the same
+            # on every entry (state left over from an earlier pass would show)
+            dom = dom + [(1, 0), (0, 1)]
+        for combo in itertools.product(dom, repeat=len(gs)):
             env = {g: (n, False) for g, n in zip(gs, combo)}
             n_runs += 1
             want = sem.run_tgt(full, env)
@@ -945,7 +1012,7 @@ def rule_protocol_invariants(cm, rep, rid, semantic_ok=True):
                   '"if label: FLAG = False", then P1; P4 the wrapper sets FLAG False and runs the body in a one-element loop; '
                   'P5 nothing else writes FLAG or a label; P6 YieldBreak is "return", Yield* is "yield" (carries the bounded '
                   'semantic check to unbounded nesting)')
-    ts = cm.templates
+    ts = cm.renderer
     where = cm.comp.module.relpath
     probs = []
     ph = [Node('YPCodeYieldFalse')]
